@@ -71,6 +71,11 @@ type Strategy struct {
 	// Unsolicited[j]: in the apologizing phase the keyper sends an apology naming keyper j as accuser, with a value
 	// that does not verify, although j never accused it (the chain accepts such a message).
 	Unsolicited []bool
+	// Stray[j]: in the apologizing phase (StrayOffset blocks into it; 0 means 3) the keyper sends keyper j a private
+	// polynomial evaluation — far too late; it only reaches j as an event if nothing was sent to j in phase
+	// (Eval[j] = EvalOmit), the chain refuses a second one.
+	Stray       []bool
+	StrayOffset int64
 	// OnlyFirstEon: the deviations apply to the first key generation only; later ones are left alone.
 	OnlyFirstEon bool
 	// EvalFirst puts the polynomial evaluations on the chain before the commitment (same block or
@@ -134,6 +139,11 @@ func (s Strategy) String() string {
 	for j, u := range s.Unsolicited {
 		if u {
 			fmt.Fprintf(&b, " unsolicited-apology->%d", j)
+		}
+	}
+	for j, u := range s.Stray {
+		if u {
+			fmt.Fprintf(&b, " stray-eval->%d@+%d", j, s.strayOffset())
 		}
 	}
 	if s.Faithful {
@@ -233,7 +243,24 @@ func RandomStrategy(r *hx.Rand, n, byzIndex int) Strategy {
 			s.Unsolicited[j] = j != byzIndex && r.Chance(50)
 		}
 	}
+	if r.Chance(25) {
+		s.Stray = make([]bool, n)
+		s.StrayOffset = int64(1 + r.Intn(5))
+		for j := 0; j < n; j++ {
+			if j != byzIndex && r.Chance(50) {
+				s.Stray[j] = true
+				s.Eval[j] = EvalOmit
+			}
+		}
+	}
 	return s
+}
+
+func (s Strategy) strayOffset() int64 {
+	if s.StrayOffset > 0 {
+		return s.StrayOffset
+	}
+	return 3
 }
 
 // outMsg is one message to be put on the chain in place of an original one.
@@ -538,6 +565,36 @@ func (r *Rig) byzTick(next int64) {
 			}
 			if len(accusers) > 0 {
 				r.Chain.Submit(r.signAs(k.Index, shmsg.NewApology(eon, accusers, vals)), fmt.Sprintf("byz:%d:unsolicited-apology", k.Index))
+			}
+		}
+	}
+	// stray private evaluations in the apologizing phase
+	for _, k := range r.Keypers {
+		if k.Strategy == nil || len(k.Strategy.Stray) == 0 {
+			continue
+		}
+		for eon, start := range r.EonStart {
+			if k.straySent[eon] || next < start+2*L+k.Strategy.strayOffset() || next >= start+3*L {
+				continue
+			}
+			if k.straySent == nil {
+				k.straySent = map[uint64]bool{}
+			}
+			k.straySent[eon] = true
+			var recv []common.Address
+			var evals [][]byte
+			for j, u := range k.Strategy.Stray {
+				if u && j != k.Index && j < len(r.Keypers) {
+					priv := ecies.ImportECDSA(r.Keypers[j].EncKey)
+					ct, err := ecies.Encrypt(crand.Reader, &priv.PublicKey, big.NewInt(int64(777+j)).FillBytes(make([]byte, 32)), nil, nil)
+					if err != nil {
+						panic(err)
+					}
+					recv, evals = append(recv, r.Keypers[j].Address), append(evals, ct)
+				}
+			}
+			if len(recv) > 0 {
+				r.Chain.Submit(r.signAs(k.Index, shmsg.NewPolyEval(eon, recv, evals)), fmt.Sprintf("byz:%d:stray-eval", k.Index))
 			}
 		}
 	}
